@@ -77,8 +77,10 @@ structure St where
   fl : Bool := false              -- inside the FlushValues loop
   again : Bool := false           -- the running Commit is followed by a new collector in the flush loop
   -- ghosts
+  started : Bool := false         -- running.Store(true) executed
   added : Bool := false           -- writeWg.Add(1) executed
   stopped : Bool := false         -- some Stop executed running.Store(false)
+  waited : Bool := false          -- that Stop passed writeWg.Wait()
   win : Nat := 0                  -- producers between their running check and their counter increment
   raced : Bool := false           -- Stop cleared `running` while a producer was in that window
   rst : Nat → Nat := fun _ => 0   -- resets per object
@@ -91,6 +93,8 @@ def emit (e : Event) (s : St) : St := { s with tr := e :: s.tr, mon := s.mon.ste
 
 def applyMuts (ms : List (Nat × Nat)) (f : Nat → Option Nat) : Nat → Option Nat :=
   ms.foldl (fun g m => upd g m.1 (some m.2)) f
+
+@[simp] theorem applyMuts_nil (f : Nat → Option Nat) : applyMuts [] f = f := rfl
 
 def stepProd (s : St) (id : Nat) (pc : PPc) (cur : Nat) (script : List Nat) : List (St × Thread) :=
   match pc with
@@ -109,7 +113,7 @@ def stepProd (s : St) (id : Nat) (pc : PPc) (cur : Nat) (script : List Nat) : Li
   | .startLoad =>
     if s.running then [({ s with once := 2 }, .prod id .startUnlock cur script)]
     else [(s, .prod id .startStore cur script)]
-  | .startStore => [({ s with running := true, once := 2 }, .prod id .startAdd cur script)]
+  | .startStore => [({ s with running := true, once := 2, started := true }, .prod id .startAdd cur script)]
   | .startAdd => [({ s with wg := s.wg + 1, added := true }, .prod id .startGo cur script)]
   | .startGo => [({ s with spawned := true }, .prod id .startUnlock cur script)]
   | .startUnlock => [({ s with mu := false }, .prod id .onceEnd cur script)]
@@ -134,7 +138,7 @@ def stepStop (s : St) (id : Nat) (pc : SPc) : List (St × Thread) :=
   | .load => if s.running then [(s, .stopper id .store)] else [(s, .stopper id .unlock)]
   | .store =>
     [({ s with running := false, stopped := true, raced := s.raced || decide (0 < s.win) }, .stopper id .wait)]
-  | .wait => if s.wg = 0 then [(s, .stopper id .unlock)] else []
+  | .wait => if s.wg = 0 then [({ s with waited := true }, .stopper id .unlock)] else []
   | .unlock => [({ s with mu := false }, .stopper id .ret)]
   | .ret => [(emit (.stopRet id) s, .stopper id .fin)]
   | .fin => []
